@@ -37,7 +37,7 @@ def cases(tier, seed):
     rnd = random.Random(f"C03/{tier}/{seed}")
     for gen in (4, 5):
         yield {"k": "edge", "gen": gen}
-    n = 30 if tier == "quick" else 1500
+    n = 30 if tier == "quick" else 6000
     for i in range(n):
         for gen in (4, 5):
             yield {"k": "canon", "gen": gen, "seed": rnd.randrange(1 << 30), "rounds": 3,
